@@ -294,7 +294,8 @@ HomK(kind, c) ==
 
 VARIABLES kind,         \* the constructed aggregator
           mode,         \* "single" (one call over the full alphabet) | "hist" (histories)
-          rng,          \* [seed, stream]: abstract global RNG
+          rng,          \* [seed, stream, calls]: abstract global RNG (draw requests and number of
+                        \* calls of this instance since the seed was set)
           steps,        \* history: sequence of [op, s, c, rngBefore, expect, impl]
           ncalls,
           inputsIntact  \* no call ever wrote to an input tensor
@@ -383,6 +384,13 @@ StreamAccounting == \A i \in DOMAIN steps :
     /\ (steps[i].op = "call" /\ i < Len(steps) /\ steps[i].impl # "vector") =>
           /\ steps[i + 1].rngBefore.stream = steps[i].rngBefore.stream
           /\ steps[i + 1].rngBefore.seed = steps[i].rngBefore.seed
+
+\* the property-level memo comparison (fresh instance right after the same seed) is only ever
+\* demanded for a call that directly follows a seeding (or the construction), at stream position 0
+PropertyMemoMeansFreshSeed == \A i \in DOMAIN steps :
+    (steps[i].op = "call" /\ Randomised(kind) /\ MemoLevel(kind, steps[i].rngBefore) = "property") =>
+        /\ steps[i].rngBefore.stream = <<>>
+        /\ (i = 1 \/ steps[i - 1].op = "seed")
 
 \* homogeneity is only ever demanded where the model can decide the side conditions
 HomWellDefined == \A i \in DOMAIN steps :
